@@ -284,6 +284,8 @@ class ClassTable:
                     and isinstance(stmt.value.body, ast.Constant) and isinstance(stmt.value.body.value, bool)):
                 const_fns[stmt.targets[0].id] = stmt.value.body.value
                 continue
+            if isinstance(stmt, (ast.Assert, ast.Pass)):
+                continue
             if isinstance(stmt, ast.Return):
                 if isinstance(stmt.value, ast.Name) and stmt.value.id == cls_name:
                     continue
